@@ -2,6 +2,17 @@
 # with which budgets (case counts, never seconds).
 NOT_APPLICABLE = {}
 
+def MEMCHECK(harness, quick, thorough, mode='', **kw):
+    """The same harness on the uninstrumented -O2 build under valgrind memcheck: reads of
+    uninitialised memory that decide a branch or reach an address (ASan cannot see those)."""
+    d = dict(harness=harness, variant='plain', mode=mode, quick=quick, thorough=thorough, min_per_shard=20,
+             wrapper=['valgrind', '-q', '--error-exitcode=99', '--exit-on-first-error=yes', '--undef-value-errors=yes',
+                      '--track-origins=no', '--num-callers=24'],
+             args=['--beacon'], case_timeout=300, memcheck=True)
+    d.update(kw)
+    return d
+
+
 PROPS = {
     'C01': dict(
         level_text='Runtime monitoring against a reference model: every generated (address, type string, values) case is encoded by all four constructors (rtosc_amessage, rtosc_vmessage through a hand-built va_list, true-varargs rtosc_message call sites, rtosc_avmessage incl. compressed ranges) and compared bytewise with an independent OSC 1.0 encoder; the bytes are then read back from an exact-size heap copy through every accessor and compared bit-for-bit. Held on the cases explored (type strings exhaustive to length 2/3, random beyond), not a proof.',
@@ -141,7 +152,8 @@ PROPS = {
         technique='reference state-machine monitor in lock-step + output-constraint monitor, AddressSanitizer/UBSan',
         stages=[dict(harness='c19', variant='asan', quick=20000, thorough=1000000,
                      need=['ops.createBinding', 'ops.learn_requests', 'ops.clearSlot', 'ops.clear_nonlearning_while_others_wait', 'ops.setSlot', 'ops.gain_offset',
-                           'midi.bound_cc', 'midi.learned_cc', 'midi.unbound_ignored', 'midi.bound_nrpn', 'midi.learned_nrpn', 'out.messages', 'out.monotone_checked', 'out.linearity_checked'])],
+                           'midi.bound_cc', 'midi.learned_cc', 'midi.unbound_ignored', 'midi.bound_nrpn', 'midi.learned_nrpn', 'nrpn.data_entry_without_select', 'nrpn.select_mid_history', 'out.messages', 'out.monotone_checked', 'out.linearity_checked']),
+                MEMCHECK('c19', quick=3200, thorough=64000)],
         rule='case = one operation history; distinct = hash of the rendered history; every history is non-trivial.',
         exhaustive=dict(quick=False, thorough=False),
         assumptions=['reference automation model harness/c19.cpp']),
